@@ -298,10 +298,12 @@ class Result:
         return rc
 
 
-def proof_stage(res, props_file, module, pinned):
+def proof_stage(res, props_file, module, pinned, pre=None):
     """Build Props/<file>.vo from scratch dependencies, audit sources and assumptions.
-    `pinned`: theorem names that must exist.  Fills the proof part of the coverage."""
-    ok, out = build_coq(["theories/Props/%s.vo" % props_file[:-2]])
+    `pinned`: theorem names that must exist.  Fills the proof part of the coverage.
+    `pre`: optional translator run under the build lock right before the build (so that the
+    generated file the theorems are checked against is the one of this run)."""
+    ok, out = build_coq(["theories/Props/%s.vo" % props_file[:-2]], pre=pre)
     thms = theorem_names(props_file)
     bad = source_audit()
     cov = res.coverage
